@@ -12,6 +12,7 @@ Conventions of the generated programs: the announcement of a rendezvous on uncon
 `add a_uK 1` (its R line is the atomic announcement of the documented protocol)."""
 import os, json, re
 import vlib, trace
+from props import c08c14_steps as steps
 
 VF = ["Uncond/UncondModel.v", "Uncond/UncondProofs.v"]
 POINTS = ["uncond.publish", "uncond.sig.read", "uncond.sig.clear", "uncond.sig.push"]
@@ -565,9 +566,36 @@ def longspin_cases(r, n):
     return cases
 
 
+def verylong_case(r, tickers=14):
+    """ONE run (thorough tier) in which an early signal spins for 3 - 5 s of wall-clock time: the waiter (created
+    parent-first, picked up by an idle worker) has its publication held back while `tickers` threads of 4000 nops
+    each run on the other workers and the main thread signals; finds spin bounds of up to ~2^32 TSC cycles"""
+    p = Prog()
+    p.objs += ["u0 uncond", "a_u0 var 0", "seq0 var 0"]
+    W = p.new_thread()
+    p.op(0, "add a_u0 1")
+    p.op(0, "create %d pf" % W)
+    p.op(W, "uwait u0")
+    p.exp(W, "get seq0", 5)
+    Ts = []
+    for _ in range(tickers):
+        T = p.new_thread()
+        Ts.append(T)
+        p.threads[T] = ["nop"] * 4000
+        p.op(0, "create %d pf" % T)
+    p.op(0, "set seq0 5")
+    p.op(0, "usignal u0")
+    for t in [W] + Ts:
+        p.op(0, "join %d" % t)
+    txt = p.text(6, r.rng(1, 1 << 30), 80, maxsteps=3000000) + "hold uncond.publish 100000000 100\n"
+    return {"family": "verylong", "workers": 6, "unsafe": True, "text": txt}
+
+
 def gen_cases(ctx, n):
     r = ctx.rng
     cases = sweep_cases(r, 1 if n < 1000 else 12) + longspin_cases(r, 6 if n < 1000 else 60) + stress_cases(r, max(10, n // 4))
+    if n >= 1000:
+        cases.insert(0, verylong_case(r))
     for i in range(n):
         fam = FAMILIES[i % len(FAMILIES)]
         workers = [1, 2, 2, 3, 4][(i // len(FAMILIES)) % 5]
@@ -695,6 +723,8 @@ def run(ctx):
     exe, drv = build(ctx)
     n = 126 if not ctx.thorough else 3000
     cases = load_corpus() + gen_cases(ctx, n)
+    struct_bad = steps.check(steps.UNCOND_TABLE)
+    ctx.cov["step_table"] = {"functions": sorted(steps.UNCOND_TABLE), "unit": "src/" + steps.UNIT, "mismatches": struct_bad}
     results = run_until_failure(ctx, exe, drv, cases)
     hist, spins, dist, verd, st = summarize(ctx, results)
     bad_oracle = [o for o in results if o["oracle"]]
@@ -744,6 +774,21 @@ def run(ctx):
             ctx.violation("coverage", "never exercised on this run: %s%s%s" % (
                 ", ".join(missing), " uncond.sig.spin (early signal)" if not spins else "", " late signal" if not st["late"] else ""),
                 {"theorem_or_correspondence": "coverage of the POINT ids of the uncond routines", "histogram": hist}, found=False)
+    if struct_bad and not bad_oracle:
+        hit = None
+        if not bad_model:           # (the model-disagreement branch above has searched already)
+            hit = search_oracle_failure(ctx, exe, drv, results[len(results) // 2]["case"], 300 if not ctx.thorough else 1500)
+        if hit:
+            ctx.violation("oracle", hit["oracle"], {"case": hit["case"]["text"], "observed": hit["oracle"],
+                                                    "step_table_mismatch": struct_bad, "verdict": hit["res"]["verdict"],
+                                                    "level": "library",
+                                                    "trace_tail": hit["res"]["trace_text"].split("\n")[-25:]}, found=True)
+        elif not [v for v in ctx.violations if v["found"]]:
+            ctx.violation("step-table", "the source no longer has exactly the steps of the model: " + " | ".join(struct_bad),
+                          {"theorem_or_correspondence": "source step table of myth_uncond_{wait,signal}_body / myth_uncond_wait_cb (tools/props/c08c14_steps.py) <-> model step function",
+                           "observed": struct_bad,
+                           "expected": "the atoms listed in c08c14_steps.UNCOND_TABLE, in this order, and no other protocol-relevant statement"},
+                          found=False)
     if broken:
         ctx.violation("proof", "theorem(s) no longer check: " + ", ".join(broken),
                       {"theorem_or_correspondence": ", ".join(broken), "log": getattr(ctx, "proof_log", log[-3000:])}, found=False)
